@@ -378,6 +378,11 @@ func C05(run *report.Run) {
 	cfgs = append(cfgs, C05ExtraConfigs(run.Thorough())...)
 	runSingle(run, "C05", cfgs, func(*world.Config) explore.Monitor { return &c05Mon{} }, opsWithJSON)
 	fanOut(run, "C05", multiTreePlans(run.Thorough()), func(*world.Config) explore.Monitor { return &c05Mon{} })
+	{
+		acc := &pairAcc{}
+		bodyLengthSweep(run, "C05", acc)
+		acc.flush(run)
+	}
 	run.Rule = ruleSingle + " and MakeRoot+JSON(Root)+LoadMast; oracle: the reloaded tree has the same entries (per-key Get), Size, Height, BranchFactor, NodeFormat as the tree that was persisted"
 }
 
